@@ -206,6 +206,9 @@ pub fn c08_scenario(ch: &mut Chooser, thorough: bool) -> Exec {
     let by_regex = ch.flag("hosts_named_by_regex");
     // regex variant: "B against every host" (overlapping sets) holds both A<->B and B<->C
     let wide = by_regex && !from_host && ch.flag("regex_set_is_b_against_all");
+    // argument order of the wide calls: (B, /all/) for both, (/all/, B) for both, or hold with
+    // one order and release with the other
+    let wide_order = if wide { ch.choose("wide_argument_order", 3) } else { 0 };
     // host code that calls hold / release: the uninvolved host C (runs after A and B in a
     // step) or the sender A itself (runs before the receiver B)
     let issuer: usize = if from_host && ch.flag("host_code_control_issued_by_a_instead_of_c") { 0 } else { 2 };
@@ -250,10 +253,12 @@ pub fn c08_scenario(ch: &mut Chooser, thorough: bool) -> Exec {
                 net.host_cmd(issuer, c);
             } else if wide {
                 let allr = regex::Regex::new("^h[abc]$").unwrap();
-                if rel {
-                    net.sim.release(NAMES[1], allr)
-                } else {
-                    net.sim.hold(NAMES[1], allr)
+                let regex_first = wide_order == 1 || (wide_order == 2 && rel);
+                match (rel, regex_first) {
+                    (true, false) => net.sim.release(NAMES[1], allr),
+                    (true, true) => net.sim.release(allr, NAMES[1]),
+                    (false, false) => net.sim.hold(NAMES[1], allr),
+                    (false, true) => net.sim.hold(allr, NAMES[1]),
                 }
             } else if by_regex {
                 let a = regex::Regex::new("^ha$").unwrap();
@@ -374,6 +379,27 @@ pub fn c08_scenario(ch: &mut Chooser, thorough: bool) -> Exec {
                 m.stat = MStat::Held;
             }
             feats.push("re-hold");
+        }
+        // ---- release right after a manual delivery, before the step: the hand-scheduled
+        // message and everything that was still held are handed over in this step
+        if link.held && !suffix && !from_host && link.q.iter().any(|m| m.stat == MStat::At(k)) && ch.dev_flag("release_right_after_the_manual_delivery") {
+            hold_now(&net, true);
+            obs.push(format!("step {k}: release(A,B) right after the manual delivery"));
+            link.held = false;
+            for m in &mut link.q {
+                if m.stat == MStat::Held {
+                    m.stat = MStat::At(k);
+                }
+            }
+            if wide {
+                link_bc.held = false;
+                for m in &mut link_bc.q {
+                    if m.stat == MStat::Held {
+                        m.stat = MStat::At(k);
+                    }
+                }
+            }
+            feats.push("release-after-manual-delivery");
         }
         // ---- links view must show exactly the in-flight set (checked before the step)
         if !from_host {
@@ -498,7 +524,7 @@ pub fn c08_scenario(ch: &mut Chooser, thorough: bool) -> Exec {
     obs.push(format!("recv={:?}", net.st.borrow().recv));
     if let Some(v) = violation.as_mut() {
         v.sig = format!("{}|from_host={}", v.clause, from_host);
-        v.scenario = format!("c08 tier={} steps={steps} from_host={from_host} regex={by_regex} wide={wide}", if thorough { "thorough" } else { "quick" });
+        v.scenario = format!("c08 tier={} steps={steps} from_host={from_host} regex={by_regex} wide={wide} wide_order={wide_order}", if thorough { "thorough" } else { "quick" });
         v.actions = obs.clone();
     }
     Exec { outcome: Digest::of64(&obs), violation, features: feats }
